@@ -113,3 +113,17 @@ Definition expired_eval_old (c : fcache) (dtm : Z) (l : lifespan) (now : Z) : er
   | FNone, Span us => if us =? 0 then EZeroDiv else fst (expired_eval c dtm l now)
   | _, _ => fst (expired_eval c dtm l now)
   end.
+
+(* ---------------------------------------------------------------- reading one zone's element out of an array payload *)
+(* _msg_value_msg(msg, zone_idx=z) on a list payload: `{k: v for d in msg.payload for k, v in d.items() if d.get(idx) == val}` -- every element
+   of that zone is merged into one dict, a later element overriding an earlier one key by key.  (The gateway merges consecutive 000A / 22C9
+   array fragments of one controller into ONE payload, prev.payload + this.payload, so a zone can be in it twice.) *)
+Definition fields := list (Z * Z).                         (* key -> value *)
+Fixpoint fget (d : fields) (k : Z) : option Z :=
+  match d with [] => None | (k', v) :: t => if k =? k' then Some v else fget t k end.
+Fixpoint fset (d : fields) (k v : Z) : fields :=
+  match d with [] => [(k, v)] | (k', v') :: t => if k =? k' then (k, v) :: t else (k', v') :: fset t k v end.
+Definition fmerge (d : fields) (e : fields) : fields := fold_left (fun d kv => fset d (fst kv) (snd kv)) e d.
+Definition pick_from (d : fields) (arr : list (Z * fields)) (z : Z) : fields :=
+  fold_left (fun d e => if fst e =? z then fmerge d (snd e) else d) arr d.
+Definition pick (arr : list (Z * fields)) (z : Z) : fields := pick_from [] arr z.
